@@ -231,7 +231,7 @@ func TestVerifKEMDifferential(t *testing.T) {
 		"matrix-entries-need-different-block-counts",
 		"decrypt-w=832", "decrypt-w=833", "decrypt-w=2496", "decrypt-w=2497")
 	ims := kemImpls()
-	nk := lib.Scale(40, 2500)
+	nk := lib.Scale(80, 2000)
 	type cs struct {
 		im *kemImpl
 		k  int
@@ -435,7 +435,7 @@ func TestVerifMLKEMKeyParsing(t *testing.T) {
 	lib.Mandatory("ek-unreduced-refused", "ek-wellformed-accepted", "dk-hash-mismatch-refused", "dk-wellformed-accepted",
 		"kyber-r3-unreduced-pk-compared", "dk-unreduced-decaps-compared")
 	ims := kemImpls()
-	nk := lib.Scale(6, 120)
+	nk := lib.Scale(12, 120)
 	type cs struct {
 		im *kemImpl
 		k  int
@@ -586,8 +586,12 @@ func parseCase(im *kemImpl, k int) {
 			}
 			set12(e2, idx, ref.Q+r.Intn(4096-ref.Q))
 		}
-		_, err := im.sch.UnmarshalBinaryPublicKey(e2)
+		var err error
 		lib.Case([]byte(im.name), []byte("parse-unreduced"), e2)
+		if pn := lib.Try("UnmarshalBinaryPublicKey:"+im.name, e2, func() { _, err = im.sch.UnmarshalBinaryPublicKey(e2) }); pn != nil {
+			pviol(im, "panic-parse", "ek", e2, "panic", pn.Value)
+			continue
+		}
 		if im.ml {
 			if err == nil {
 				pviol(im, "unreduced-ek-accepted", "ek", e2, "coefficients_altered", cnt)
@@ -663,7 +667,12 @@ func parseCase(im *kemImpl, k int) {
 			}
 			copy(d2[768*p.K+32:], ref.H(d2[eo:eo+p.EkSize]))
 		}
-		usk, err := im.sch.UnmarshalBinaryPrivateKey(d2)
+		var usk kem.PrivateKey
+		var err error
+		if pn := lib.Try("UnmarshalBinaryPrivateKey:"+im.name, d2, func() { usk, err = im.sch.UnmarshalBinaryPrivateKey(d2) }); pn != nil {
+			pviol(im, "panic-parse", "dk", d2, "panic", pn.Value)
+			continue
+		}
 		if err != nil {
 			lib.Count("dk-unreduced-refused")
 			continue
@@ -693,7 +702,7 @@ func eviol(im *pkeImpl, class string, ml bool, kv ...any) {
 func TestVerifPKEDifferential(t *testing.T) {
 	lib.Mandatory("pke-keygen-compared", "pke-encrypt-compared", "pke-decrypt-compared", "pke-unpackmlkem-refused")
 	ims := pkeImpls()
-	nk := lib.Scale(30, 1500)
+	nk := lib.Scale(50, 1200)
 	type cs struct {
 		im *pkeImpl
 		k  int
@@ -749,8 +758,13 @@ func pkeCase(im *pkeImpl, k int, ml bool) {
 	upk.Unpack(wantEk)
 	usk.Unpack(wantDk)
 	npk, nsk := im.newPub(), im.newPriv()
-	npk.Unpack(ek2)
-	nsk.Unpack(dk2)
+	if pn := lib.Try("pke.Unpack:"+im.name, append(lib.Clone(ek2), dk2...), func() {
+		npk.Unpack(ek2)
+		nsk.Unpack(dk2)
+	}); pn != nil {
+		eviol(im, "panic", ml, "ek", ek2, "dk", dk2, "panic", pn.Value)
+		return
+	}
 	{
 		b := make([]byte, p.EkSize)
 		upk.Pack(b)
